@@ -5,6 +5,7 @@ Property theorems only; helper lemmas live in FendModel/Proofs/.
 (canonical or not, `small` or `large`, any number of leading zero limbs).
 -/
 import FendModel.Proofs.BigUintSub
+import FendModel.Proofs.BigUintPow
 import FendModel.Model.Pinned
 
 namespace Fend.C01
@@ -29,6 +30,17 @@ theorem cmp_exact (a b : BigUint) (ha : a.WF) (hb : b.WF) :
 and is subtraction on values. -/
 theorem sub_exact (a b : BigUint) (ha : a.WF) (hb : b.WF) (h : val b ≤ val a) :
     ∃ r, a.sub b = .ok r ∧ val r = val a - val b ∧ r.WF := sub_val a b ha hb h
+
+/-- `BigUint::pow` (square and multiply over `mul`): whenever it returns a value it is the power, for every base and
+exponent, in any limb representation -/
+theorem pow_exact (a b r : BigUint) (h : a.pow b = .ok r) : val r = val a ^ val b := pow_ok a b r h
+
+/-- it refuses exactly `0^0` and non-zero exponents whose value does not fit in 64 bits (D1 was this clause being false:
+the limb COUNT was tested instead of the value) -/
+theorem pow_errors (a b : BigUint) :
+    (a.pow b = .error .zeroPowZero ↔ val a = 0 ∧ val b = 0) ∧
+    (a.pow b = .error .exponentTooLarge ↔ val b ≠ 0 ∧ b.fitsU64 = false) :=
+  ⟨pow_zero_zero a b, pow_too_large a b⟩
 
 /-- Defect D20 (repaired by a `fix:` commit): on the pinned tree `add` was NOT addition.
 Witness: `1 + (2^128 - 1)` gave `2^64`. -/
